@@ -119,6 +119,7 @@ def gen_req(rng, dbits, base, win):
 
 def gen_timing(rng, kind, n):
   return dict(stall_prob=rng.choice([0, .2, .5, .8]),
+              stall_seed=[i if rng.random() < 0.3 else rng.randrange(1 << 30) for i in range(n)],   # CL only
               latency=rng.randint(0, 6) if kind == 'cl' else rng.randint(0, 4),
               src_init=[rng.choice([0, 0, 1, 2, 3, 5, 9]) for _ in range(n)],
               src_intv=[rng.choice([0, 0, 0, 1, 2, 4]) for _ in range(n)],
